@@ -179,6 +179,19 @@ TypeOf(e, G, F, L, inDecl) ==
              bl == Blocks(2, L)
          IN IF bl.bad # "" THEN Bad(bl.bad)
             ELSE LET v == TL(e.ch[1], bl.L) IN IF IsBad(v) THEN v ELSE TBool(v)
+    [] e.id = "BAD" -> Bad("syntax")
+    [] e.id = "FUNCDEF" ->
+         \* arguments left to right: a : debool(type of its domain), radicals allowed in domains only; result = type of the body
+         LET args == e.ch[1]
+             RECURSIVE Bind(_, _)
+             Bind(i, LL) ==
+               IF i > Len(args.ch) THEN [bad |-> "", L |-> LL]
+               ELSE LET d == TypeOf(args.ch[i].ch[2], G, F, LL, TRUE) IN
+                    IF IsBad(d) THEN [bad |-> d.id]
+                    ELSE IF IsBad(Deb(d)) THEN [bad |-> "notset"]
+                    ELSE LET b == BindT(args.ch[i].ch[1], Deb(d), LL) IN IF b.bad # "" THEN b ELSE Bind(i + 1, b.L)
+             b == Bind(1, L)
+         IN IF b.bad # "" THEN Bad(b.bad) ELSE TypeOf(e.ch[2], G, F, b.L, inDecl)
     [] e.id = "CALL" ->
          IF e.s \notin DOMAIN G THEN Bad("untyped")
          ELSE IF e.s \notin DOMAIN F THEN Bad("funcMissing")
@@ -270,4 +283,25 @@ TypeOf(e, G, F, L, inDecl) ==
          ELSE IF a.k # "tuple" \/ ~InRange(e.ix, Len(a.c)) THEN Bad("prtuple")
          ELSE TTuple(Select(a.c, e.ix))
     [] OTHER -> Bad("unsupported")
+
+\* declared arguments of a function definition: Seq([name, type]) (defined when TypeOf accepts the definition)
+ArgsOf(e, G, F) ==
+  IF e.id # "FUNCDEF" THEN <<>>
+  ELSE LET args == e.ch[1]
+           RECURSIVE Col(_, _, _)
+           Col(i, LL, acc) ==
+             IF i > Len(args.ch) THEN acc
+             ELSE LET t == Deb(TypeOf(args.ch[i].ch[2], G, F, LL, TRUE)) IN
+                  Col(i + 1, Ext(LL, args.ch[i].ch[1].s, t), Append(acc, [name |-> args.ch[i].ch[1].s, type |-> t]))
+       IN Col(1, [x \in {} |-> TAny], <<>>)
+
+\* global names mentioned by a tree (identifiers, called functions) - what the dependency graph is built from
+RECURSIVE Mentions(_)
+Mentions(e) == (IF e.id \in {"GLOBAL", "CALL"} THEN {e.s} ELSE {}) \cup UNION {Mentions(e.ch[i]) : i \in 1..Len(e.ch)}
+
+\* simultaneous renaming of global names (whole identifiers only; locals and radicals are untouched)
+RECURSIVE RenameTree(_, _)
+RenameTree(e, map) ==
+  [e EXCEPT !.s = IF e.id \in {"GLOBAL", "CALL"} /\ e.s \in DOMAIN map THEN map[e.s] ELSE e.s,
+            !.ch = [i \in 1..Len(e.ch) |-> RenameTree(e.ch[i], map)]]
 =============================================================================
